@@ -81,7 +81,7 @@ def evaluate_proto_url(case):
 BASES = ["http://a.com", "http://a.com/", "http://a.com/b", "http://a.com/b/", "a.com"]
 PATHS = [None, "", "x", "/x", "x/y", "/x/", ["x", "y"], ["x", 1], ["/x", "y"], []]
 KEYS = ["k", "k y", "a&b", "é", "x=y", "#h", "?q", "%", "+", "k2"]
-VALUES = ["v", "v w", "&", "=", "#", "?", "%41", "+", "é", "", 0, 1, 1.5, True, False, None]
+VALUES = ["v", "v w", "&", "=", "#", "?", "%41", "+", "é", "", 0, 1, 1.5, True, False, None, 1.0, "1", 0.0]
 ARG_MENU = [None] + [[k, vi] for k in KEYS for vi in range(len(VALUES))]
 EXTS = [None, "html", ".json"]
 FRAGS = [None, "f", "#f", "a b"]
@@ -245,7 +245,38 @@ def _grid(kind):
     return PROTO_GRID_T if kind == "proto" else GRIDS[kind][0]
 
 
+def pure_labels():
+    out = []
+    for s in ("a.com", "http://a.com", "HTTPS://a.com", "//a.com", "ftp:a.com", "a.com/http://b.com"):
+        for fn in ("has_special_host", "strip_protocol"):
+            out.append({"mod": "ural", "fn": fn, "args": [s]})
+        for p in ("https", "ftp"):
+            out.append({"mod": "ural", "fn": "ensure_protocol", "args": [s], "kw": {"protocol": p}})
+            out.append({"mod": "ural", "fn": "force_protocol", "args": [s], "kw": {"protocol": p}})
+    for b in ("http://a.com", "http://a.com/b/", "a.com"):
+        out.append({"mod": "ural", "fn": "format_url", "args": [b], "kw": {"path": ["x", 1], "args": {"k y": "v w", "n": None, "t": True}, "fragment": "f"}})
+        out.append({"mod": "ural", "fn": "format_url", "args": [b], "kw": {"path": "/x", "args": [["k", "v"], ["k", "w"]], "ext": "json"}})
+        out.append({"mod": "ural", "fn": "format_url", "args": [b]})
+        # values that are equal / hash alike but print differently
+        for v in (1, 1.0, "1", 0, 0.0):
+            out.append({"mod": "ural", "fn": "format_url", "args": [b], "kw": {"args": [["n", v]]}})
+        out.append({"mod": "ural.utils", "fn": "add_query_argument", "args": [b + "?x=1", "k", "v w"]})
+        out.append({"mod": "ural.utils", "fn": "add_query_argument", "args": [b, "k"]})
+    for p in ("/a/b/c/", "a/b", "", "/"):
+        out.append({"mod": "ural.utils", "fn": "pathsplit", "args": [p]})
+        out.append({"mod": "ural.utils", "fn": "urlpathsplit", "args": ["http://a.com" + p]})
+    return out
+
+
+def pure_thunk(label):
+    import importlib
+    f = getattr(importlib.import_module(label["mod"]), label["fn"])
+    return lambda: core.call(f, *label.get("args", []), **label.get("kw", {}))
+
+
 def judge(w):
+    if "history" in w:
+        return core.judge_history(PROP + ".pure", w, pure_thunk)
     return GRIDS[w["kind"]][1](dict(_grid(w["kind"]).default_case(), **w["case"]))[0]
 
 
@@ -257,6 +288,8 @@ def fails_fn(clause, w):
 
 
 def simplify(w):
+    if "history" in w:
+        return []
     return [dict(x, kind=w["kind"]) for x in _grid(w["kind"]).wsimplify(w)]
 
 
@@ -279,6 +312,8 @@ def run(chk):
         failures, tags = grid.run(chk, g, d, GRIDS[kind][1],
                                   shrink=(lambda case, wg=wg, kind=kind: dict(wg.wit(case), kind=kind), simplify, fails_fn))
         tags_all[kind] = tags
+    chk.rule.append("H2: every ordered pair of %d protocol-helper / builder calls from a reset module state." % len(pure_labels()))
+    core.explore_pairs(chk, PROP + ".pure", [(l, pure_thunk(l)) for l in pure_labels()])
     n = chk.cov["states"]
     chk.add("transitions", n * 6)
     chk.add("evaluations", n)
